@@ -1,6 +1,7 @@
 package props
 
 import (
+	"go/token"
 	"go/types"
 
 	"golang.org/x/tools/go/ssa"
@@ -84,22 +85,47 @@ func carriedFields(fn *ssa.Function) map[string]bool {
 			return
 		}
 		seen[f] = true
+		// the receiver itself, or a load of the local cell it was spilled to (a closure of the method captures it)
+		// that is never given another value
+		isRecv := func(v ssa.Value) bool {
+			if v == recv {
+				return true
+			}
+			u, ok := v.(*ssa.UnOp)
+			if !ok || u.Op != token.MUL {
+				return false
+			}
+			a, ok := u.X.(*ssa.Alloc)
+			if !ok {
+				return false
+			}
+			n := 0
+			for _, ref := range *a.Referrers() {
+				if st, ok := ref.(*ssa.Store); ok && st.Addr == ssa.Value(a) {
+					if st.Val != recv {
+						return false
+					}
+					n++
+				}
+			}
+			return n > 0
+		}
 		for _, b := range f.Blocks {
 			for _, in := range b.Instrs {
 				switch x := in.(type) {
 				case *ssa.UnOp:
-					if fa, ok := x.X.(*ssa.FieldAddr); ok && fa.X == recv && own.HasRefs(x.Type()) {
+					if fa, ok := x.X.(*ssa.FieldAddr); ok && isRecv(fa.X) && own.HasRefs(x.Type()) {
 						// upward-exposed: the load may observe the value the field had on entry
 						if v, known := core.ResolveLoad(x); !known || v == nil {
 							loaded[core.FieldName(fa)] = true
 						}
 					}
 				case *ssa.Store:
-					if fa, ok := x.Addr.(*ssa.FieldAddr); ok && fa.X == recv {
+					if fa, ok := x.Addr.(*ssa.FieldAddr); ok && isRecv(fa.X) {
 						stored[core.FieldName(fa)] = true
 					}
 				case *ssa.Call:
-					if callee := x.Call.StaticCallee(); callee != nil && core.InModule(callee) && len(x.Call.Args) > 0 && x.Call.Args[0] == recv && len(callee.Params) > 0 {
+					if callee := x.Call.StaticCallee(); callee != nil && core.InModule(callee) && len(x.Call.Args) > 0 && isRecv(x.Call.Args[0]) && len(callee.Params) > 0 {
 						visit(callee, callee.Params[0])
 					}
 				}
